@@ -713,15 +713,49 @@ impl Quil for Expression {
                 expression,
             }) => {
                 write!(f, "{operator}")?;
-                format_inner_expression(f, fall_back_to_debug, expression)
+                // The parser accepts at most one prefix operator before an operand, so an
+                // operand that is itself printed with a leading minus sign must be wrapped.
+                if matches!(operator, PrefixOperator::Minus) && starts_with_minus(expression) {
+                    write!(f, "(")?;
+                    format_inner_expression(f, fall_back_to_debug, expression)?;
+                    write!(f, ")").map_err(Into::into)
+                } else {
+                    format_inner_expression(f, fall_back_to_debug, expression)
+                }
             }
             Variable(identifier) => write!(f, "%{identifier}").map_err(Into::into),
         }
     }
 }
 
+/// Whether this number is printed by [`format_complex`] as a sum or difference of its real and
+/// imaginary parts, i.e. as an infix expression rather than as a single literal.
+fn is_printed_as_infix(value: &Complex64) -> bool {
+    value.re != 0f64 && value.im != 0f64
+}
+
+/// Whether the text written by [`format_inner_expression`] for this expression begins with a minus
+/// sign.
+fn starts_with_minus(expression: &Expression) -> bool {
+    match expression {
+        Expression::Number(value) if is_printed_as_infix(value) => false,
+        Expression::Number(value) if value.re != 0f64 => value.re < 0f64,
+        Expression::Number(value) => value.im < 0f64,
+        Expression::Prefix(PrefixExpression {
+            operator: PrefixOperator::Minus,
+            ..
+        }) => true,
+        Expression::Prefix(PrefixExpression {
+            operator: PrefixOperator::Plus,
+            expression,
+        }) => starts_with_minus(expression),
+        _ => false,
+    }
+}
+
 /// Utility function to wrap infix expressions that are part of an expression in parentheses, so
-/// that correct precedence rules are enforced.
+/// that correct precedence rules are enforced. This includes complex numbers with both a real and
+/// an imaginary part, which are printed as a sum or difference of the two.
 fn format_inner_expression(
     f: &mut impl std::fmt::Write,
     fall_back_to_debug: bool,
@@ -739,6 +773,9 @@ fn format_inner_expression(
             format_inner_expression(f, fall_back_to_debug, right)?;
             write!(f, ")")?;
             Ok(())
+        }
+        Expression::Number(value) if is_printed_as_infix(value) => {
+            write!(f, "({})", format_complex(value)).map_err(Into::into)
         }
         _ => expression.write(f, fall_back_to_debug),
     }
